@@ -119,11 +119,15 @@ func RunPlan(t *testing.T, plan *Plan) (res *Result) {
 		env.Done()
 		res.Counts = env.Counts
 		res.LogSHA = env.LogSHA()
+		if d := os.Getenv("ZSIM_LOGDIR"); d != "" {
+			os.WriteFile(filepath.Join(d, fmt.Sprintf("%s-%d.log", plan.Prop, plan.Seed)), []byte(strings.Join(env.LogLines(), "\n")+"\n"), 0644)
+		}
 		res.Counts["adjacencies"] = len(env.Adjacencies())
 		h := sha256.New()
 		for _, a := range env.Adjacencies() {
 			h.Write([]byte(a))
 		}
+		h.Write([]byte(env.TraceSHA()))
 		keys := make([]string, 0)
 		for k, v := range env.Counts {
 			if strings.HasPrefix(k, "shape.") || strings.HasPrefix(k, "fault.") {
